@@ -229,6 +229,31 @@ def gen_cases(tier, seed):
     for r in phys:
         byb.setdefault(r[0], []).append(r)
     n_seq = 40 if tier == 'thorough' else 8
+    # every shipped adsorbate with a backend once (molar mass, both densities, saturation pressure against the fresh state) ...
+    import pygaps
+    import CoolProp.CoolProp as CP
+    every = []
+    for a in pygaps.ADSORBATE_LIST:
+        try:
+            st = CP.AbstractState('HEOS', a.backend_name)
+            Tb = round(st.Ttriple() + 0.55 * (st.T_critical() - st.Ttriple()), 2)
+            every.append((a.name, Tb))
+        except Exception:  # noqa  (no backend)
+            continue
+    for name, Tb in every:
+        ak = 'be:%s@%s' % (name, Tb)
+        if ak not in ADS:
+            try:
+                ADS[ak] = backend_consts(name, Tb)
+            except Exception:  # noqa
+                continue
+        m = ('mass', 'g')
+        add_l(1.5, 'molar', 'mass', 'mmol', 'mg', ak, m[0], m[1], T=Tb)
+        add_l(1.5, 'mass', rnd.choice(['volume_liquid', 'volume_gas']), 'g', 'cm3', ak, m[0], m[1], T=Tb)
+        if tier == 'thorough' or rnd.random() < 0.4:
+            add_l(1.5, 'volume_gas', 'molar', 'cm3', 'mmol', ak, m[0], m[1], T=Tb)
+            add_p(1.5, 'absolute', 'relative', 'bar', None, ak, Tb)
+    # ... and call sequences on a few of them
     for name, Tb in BACKEND:
         ak = 'be:%s@%s' % (name, Tb)
         if ak not in ADS:
